@@ -301,7 +301,33 @@ def decide(prop, cfg, tier, seed, work, args, t0):
     for unit in cfg.get('units', []):
         ur = run_verus_unit(unit, work)
         if ur['tool_errors']:
-            raise Inconclusive("unit %s: %s" % (unit, '; '.join(ur['tool_errors'])[:1500]))
+            # The unit cannot be verified at all (e.g. a contract no longer type-checks against the changed code).
+            # That is undecided, not a violation — unless a native finder of this property exhibits a failing input on
+            # the real code, which is then reported with its replay.
+            reason = "unit %s: %s" % (unit, '; '.join(ur['tool_errors'])[:1500])
+            hits = []
+            if not args.no_finder:
+                for f in cfg.get('finders', []):
+                    if not f.get('native'):
+                        continue
+                    try:
+                        found = kanirun.find_counterexample(prop, dict(fn=f.get('fn_hint', f['match']), where=''), dict(finders=[dict(f, match='.*')]), work)
+                    except Exception as e:
+                        found = None
+                    if found and found.get('replayed_natively'):
+                        hits.append((f, found))
+            if not hits:
+                raise Inconclusive(reason)
+            rdir = os.path.join(HERE, 'replays', prop)
+            os.makedirs(rdir, exist_ok=True)
+            for (f, found) in hits:
+                rpath = os.path.join(rdir, sanitize('unit_%s_unverifiable_%s' % (unit, f['name'])) + '.json')
+                with open(rpath, 'w') as fh:
+                    json.dump(dict(property=prop, obligation='unit:%s#contracts-no-longer-apply' % unit, verifier_output=reason,
+                                   counterexample=found), fh, indent=1)
+                print("  unit %s could not be verified (%s); native finder %s found a failing input" % (unit, reason[:200], f['name']))
+                print("VIOLATION property=%s replay=%s" % (prop, rpath))
+            return 1
         unit_results.append(ur)
         if tier == 'thorough':
             # proof stability under different solver seeds: reported, never a verdict
